@@ -3,6 +3,8 @@
 (*   ev = "fmt":   Object::from(<backend value for instant (day, sod) at offset off>) = s        *)
 (*   ev = "parse": Object::string_literal(in).as_datetime().try_into::<backend type of p>()      *)
 (*                 = (day, sod[, off]) or a failure                                              *)
+(*   ev = "zfmt":  the same conversion inside a process whose local zone has a daylight-saving     *)
+(*                 rule, after the earlier conversions of that process (history)                  *)
 (* The declarative layer of Dates judges each record: a produced string must be Fmt / FmtUtc of  *)
 (* the instant, a parsed string must give what Parse says it denotes.  The impl-shaped layer     *)
 (* only reports drift.  cls is the class of the input (for narrow finding signatures).           *)
@@ -49,15 +51,39 @@ JudgeParse(r) ==
         cls |-> IF want.ok THEN <<r.p, want.form, OffClass(want.off), YearClass(wall)>>
                 ELSE <<r.p, "none", "none", "none">>]
 
-Judge(r) == IF r.ev = "fmt" THEN JudgeFmt(r)
-            ELSE IF r.ev = "parse" THEN JudgeParse(r)
-            ELSE [v |-> "worker-crash", cls |-> <<"crash">>]
+\* ev = "zfmt": one conversion inside a process whose local zone follows a daylight-saving rule (r.rule); the
+\* records of one process (run) are consecutive, step 1 first.  h remembers the offset the run started with, so
+\* that the class of a failing case says whether the zone's offset had changed since the first call of the process.
+JudgeZ(r, hh) ==
+    LET i    == [day |-> r.day, sod |-> r.sod]
+        off  == ZoneOffset(r.rule, i)                     \* function of the instant and the rule only
+        want == LocalString(r.rule, i)
+        phase == IF r.step = 1 THEN "first" ELSE IF off = hh.off0 THEN "same" ELSE "changed"
+    IN [v |-> IF r.step > 1 /\ hh.run # r.run THEN "trace-order"
+              ELSE IF ~InDomain(i, off) THEN "ok-outside-domain"
+              ELSE IF r.st = "na" THEN "ok-na"
+              ELSE IF r.st = "env" THEN "ok-env"
+              ELSE IF r.st = "panic" THEN "zfmt-panic"
+              ELSE IF r.loff # off THEN "ok-env-zone"      \* the backend's own zone arithmetic gave another offset
+              ELSE IF r.s = want THEN "ok" ELSE "zfmt-mismatch",
+        cls |-> <<r.b, phase, OffClass(off)>>]
 
-Init == l = 1
+Judge(r, hh) == IF r.ev = "fmt" THEN JudgeFmt(r)
+                ELSE IF r.ev = "parse" THEN JudgeParse(r)
+                ELSE IF r.ev = "zfmt" THEN JudgeZ(r, hh)
+                ELSE [v |-> "worker-crash", cls |-> <<"crash">>]
+
+VARIABLE h          \* [run, off0]: the current process of zfmt records and the zone offset of its first conversion
+
+Init == l = 1 /\ h = [run |-> -1, off0 |-> 0]
 Next == /\ l <= Len(Recs)
-        /\ LET j == Judge(Recs[l])
-           IN PrintT(<<"VERDICT", ToJson([i |-> l, v |-> j.v, cls |-> j.cls])>>)
+        /\ LET r == Recs[l]
+               j == Judge(r, h)
+           IN /\ PrintT(<<"VERDICT", ToJson([i |-> l, v |-> j.v, cls |-> j.cls])>>)
+              /\ h' = IF r.ev = "zfmt" /\ r.step = 1
+                       THEN [run |-> r.run, off0 |-> ZoneOffset(r.rule, [day |-> r.day, sod |-> r.sod])]
+                       ELSE h
         /\ l' = l + 1
-Spec == Init /\ [][Next]_l
+Spec == Init /\ [][Next]_<<l, h>>
 Consumed == TLCGet("stats").diameter = Len(Recs) + 1
 =============================================================================
